@@ -11,7 +11,7 @@ shape/dtype of every node class, function.Array metadata.
 import ast
 
 from sa import AnalysisError
-from sa.astutil import dotted, src, stmt_text, params, find_stmts, calls_in, method_name, walk_no_nested, const
+from sa.astutil import dotted, src, stmt_text, params, find_stmts, calls_in, method_name, walk_no_nested, const, strip_docstring
 from sa.facts import Order
 from sa.guards import paths_to, decompose, as_compare
 
@@ -209,6 +209,81 @@ PASS_THROUGH_OK = {'InsertAxis': 'repeats values', 'Transpose': 'permutes values
                    'Unravel': 'reshapes', 'Ravel': 'reshapes', 'LoopConcatenate': 'concatenates values of func over iterations', 'Cast': 'int->int casts only', 'Guard': 'identity', 'Diagonalize': None}
 
 
+def sum_over_terms(fn):
+    """Abstract evaluation of an `_intbounds_impl` that adds up the ranges of `self._terms`: returns the pair of what is
+    returned, each ('sum', k) = sum over all terms of component k of the term's range, or None when the body is not of that kind.
+    Spellings understood: `lowers, uppers = zip(*[f._intbounds for f in self._terms])` + sum(...); sum(f._intbounds[k] for f in
+    self._terms); and the accumulation loop `lo = hi = 0; for t in self._terms: a, b = t._intbounds; lo += a; hi += b`."""
+    env = {}
+
+    def terms_iter(it):
+        return src(it) == 'self._terms'
+
+    def comp_of(e, termvar, tenv):
+        """k when e denotes component k of the current term's range."""
+        if isinstance(e, ast.Name) and e.id in tenv:
+            return tenv[e.id]
+        if isinstance(e, ast.Subscript) and isinstance(e.value, ast.Attribute) and e.value.attr == '_intbounds' \
+                and isinstance(e.value.value, ast.Name) and e.value.value.id == termvar and const(e.slice) in (0, 1):
+            return const(e.slice)
+        return None
+
+    def ev(e):
+        if isinstance(e, ast.Name):
+            return env.get(e.id)
+        if const(e) == 0:
+            return ('const', 0)
+        if isinstance(e, ast.Call) and src(e.func) in ('sum', 'builtins.sum') and len(e.args) == 1 and not e.keywords:
+            a = e.args[0]
+            if isinstance(a, ast.Name) and isinstance(env.get(a.id), tuple) and env[a.id][0] == 'seq':
+                return ('sum', env[a.id][1])
+            if isinstance(a, (ast.GeneratorExp, ast.ListComp)) and len(a.generators) == 1 and not a.generators[0].ifs \
+                    and isinstance(a.generators[0].target, ast.Name) and terms_iter(a.generators[0].iter):
+                k = comp_of(a.elt, a.generators[0].target.id, {})
+                if k is not None:
+                    return ('sum', k)
+        return None
+
+    for s in strip_docstring(fn.body):
+        if isinstance(s, ast.Assign) and len(s.targets) == 1 and isinstance(s.targets[0], ast.Tuple) and len(s.targets[0].elts) == 2 \
+                and all(isinstance(t, ast.Name) for t in s.targets[0].elts) and isinstance(s.value, ast.Call) and src(s.value.func) == 'zip' \
+                and len(s.value.args) == 1 and isinstance(s.value.args[0], ast.Starred):
+            c = s.value.args[0].value
+            if isinstance(c, (ast.ListComp, ast.GeneratorExp)) and len(c.generators) == 1 and not c.generators[0].ifs and terms_iter(c.generators[0].iter) \
+                    and isinstance(c.generators[0].target, ast.Name) and isinstance(c.elt, ast.Attribute) and c.elt.attr == '_intbounds' \
+                    and isinstance(c.elt.value, ast.Name) and c.elt.value.id == c.generators[0].target.id:
+                env[s.targets[0].elts[0].id] = ('seq', 0)
+                env[s.targets[0].elts[1].id] = ('seq', 1)
+                continue
+            return None
+        if isinstance(s, ast.Assign) and all(isinstance(t, ast.Name) for t in s.targets):
+            v = ev(s.value)
+            if v is None:
+                return None
+            for t in s.targets:
+                env[t.id] = v
+            continue
+        if isinstance(s, ast.For) and isinstance(s.target, ast.Name) and terms_iter(s.iter) and not s.orelse:
+            tenv, added = {}, {}
+            for b in s.body:
+                if isinstance(b, ast.Assign) and len(b.targets) == 1 and isinstance(b.targets[0], ast.Tuple) and len(b.targets[0].elts) == 2 \
+                        and all(isinstance(t, ast.Name) for t in b.targets[0].elts) and isinstance(b.value, ast.Attribute) and b.value.attr == '_intbounds' \
+                        and isinstance(b.value.value, ast.Name) and b.value.value.id == s.target.id:
+                    tenv[b.targets[0].elts[0].id], tenv[b.targets[0].elts[1].id] = 0, 1
+                elif isinstance(b, ast.AugAssign) and isinstance(b.op, ast.Add) and isinstance(b.target, ast.Name) and env.get(b.target.id) == ('const', 0) \
+                        and b.target.id not in added and comp_of(b.value, s.target.id, tenv) is not None:
+                    added[b.target.id] = comp_of(b.value, s.target.id, tenv)
+                else:
+                    return None
+            for name, k in added.items():
+                env[name] = ('sum', k)
+            continue
+        if isinstance(s, ast.Return) and isinstance(s.value, ast.Tuple) and len(s.value.elts) == 2:
+            return tuple(ev(e) for e in s.value.elts)
+        return None
+    return None
+
+
 def check_transfer(model, rep):
     A = model.cls('evaluable:Array')
     n = 0
@@ -223,6 +298,8 @@ def check_transfer(model, rep):
             n += 1
             got = [norm_term(r.value, al) for r in rets]
             ok = len(got) == 1 and got[0] in ELEMENTARY[c.name]
+            if c.name == 'Add':     # the range of a sum is (sum of the lower bounds, sum of the upper bounds) over all terms, however it is spelled
+                ok = sum_over_terms(f.node) == (('sum', 0), ('sum', 1))
             rep.ob('R06.4', f.key, f.where(), ok, f'{c.name} range = {got[0]} (interval arithmetic)' if ok else
                    f'{c.name}._intbounds_impl returns {got}, interval arithmetic gives {ELEMENTARY[c.name][0]}: the announced range no longer contains all values', statement='elementary-transfer')
         elif len(rets) == 1 and isinstance(rets[0].value, ast.Attribute) and rets[0].value.attr == '_intbounds' and src(rets[0].value.value).startswith('self.'):
